@@ -279,6 +279,9 @@ pub fn run(ctx: &Ctx) -> Report {
     }
     total.merge(st);
     total.exhaustive_parts.push("chains of 10..300 operands and 10..100 nested negations ending in each kind of action (mode choice must not depend on the size of the tree)".into());
+    // interaction triples: three leaf kinds under every operator skeleton
+    let tr = crate::combo::run_triples(ctx.seed, &crate::combo::supported_kinds(), ctx.tier.pick(48, 3), judge, case_json);
+    total.merge(tr);
     let cases = ctx.tier.pick(160_000u32, 1_600_000u32);
     let rnd = run_shards(16, |shard| {
         let mut st = Stats::new();
